@@ -221,11 +221,60 @@ def upper_bounds(f, node, at, stop=(), depth=0):
             r = [x for x in upper_bounds(f, rd[2], rd[0], stop, depth + 1) if _stable_form(f, x, rd[0], at)]
             if r:
                 return r
+        if rd is None:
+            cl = _clamp(f, e["name"], at)
+            if cl is not None:
+                r = [x for x in upper_bounds(f, cl[1], cl[0], stop, depth + 1) if _stable_form(f, x, cl[0], at)]
+                if r:
+                    return r + [({e["name"]: 1}, 0)]
         return [({e["name"]: 1}, 0)]
     n = _name(f, j)
     if n is not None:
         return [({n: 1}, 0)]
     return []
+
+
+def _clamp(f, name, at):
+    """`if (x > E) x = E;` in front of event `at` (the written-out MIN): (store event, E node) when the store sits in a
+    block entered only on the edge `x > E`, that block and the other edge meet again, and x is not stored to between the
+    store and `at`.  After the join x <= E holds on both paths."""
+    from . import atoms
+    pos = flow.elem_pos(f)
+    if at not in pos:
+        return None
+    for bid, i in flow.all_events(f):
+        st = _stores_to_local(f, i, name)
+        if not st or st[0] != "=" or st[1] is None:
+            continue
+        blk = f.blocks[bid]
+        if len(blk.preds) != 1:
+            continue
+        p = blk.preds[0]
+        edges = f.edges(p)
+        if len(edges) != 2:
+            continue
+        lab = [l for s2, l in edges if s2 == bid]
+        other = [s2 for s2, l in edges if s2 != bid]
+        if not lab or not other or lab[0] not in ("T", "F"):
+            continue
+        want = ex.pretty(f, ex.skip(f, st[1]))
+        ok = False
+        for a in atoms.edge_atoms(f, p, lab[0]):
+            if a.R is None:
+                continue
+            if a.rel in (">", ">=") and a.L.locals == {name} and not a.L.fields and a.R.text == want:
+                ok = True
+            if a.rel in ("<", "<=") and a.R.locals == {name} and not a.R.fields and a.L.text == want:
+                ok = True
+        if not ok:
+            continue
+        succs = [s2 for s2, _ in f.edges(bid)]
+        if len(succs) != 1 or succs[0] != other[0]:
+            continue
+        if pos[at][0] not in flow.reach_from(f, succs[0]) or changed_between(f, name, i, at):
+            continue
+        return i, st[1]
+    return None
 
 
 def fmt(form):
